@@ -317,6 +317,30 @@ def step_exact(st):
     return True
 
 
+def _l2(n):
+    n = abs(int(n))
+    return n.bit_length() - 1 if n > 0 and n & (n - 1) == 0 else 0
+
+
+def step_dexp(st, dexp):
+    """entries of an exactly computed node are integer multiples of 2**-dexp (dyadic factors, amplitudes and scalars shift the unit);
+    exactness in binary64 needs |value| * 2**dexp < 2**52, not only |value| < 2**52"""
+    f = st["f"]
+    a = st.get("a", [])
+    if f == "add":
+        return max(dexp[i] + _l2(c[2]) for i, c in zip(a, st["amps"]))
+    if f in ("smul", "rmul"):
+        return dexp[a[0]] + _l2(st["c"][2])
+    if f == "div":
+        re, im, den = st["c"]
+        return dexp[a[0]] + _l2(re if im == 0 else im)
+    if f == "setfactor":
+        return dexp[a[0]] + _l2(st["fac"][1])
+    if f == "matmul":
+        return dexp[a[0]] + dexp[a[1]]
+    return max(dexp[i] for i in a)
+
+
 # ----------------------------------------------------------------------------------------------
 # generator (typed by construction: operands are chosen among compatible real objects)
 # ----------------------------------------------------------------------------------------------
@@ -673,7 +697,7 @@ def run_case(ctx, case, model=True):
     import yastn.tn.mps as mps
     U = Universe(case["uni"])
     N = U.N
-    objs, refs, absr, nrp, exact, isp = [], [], [], [], [], []
+    objs, refs, absr, nrp, exact, isp, dexp = [], [], [], [], [], [], []
     tag = f"{case['uni']['ops']}/{case['uni']['sym']}/N{N}"
 
     def fail(key, what, extra=None):
@@ -693,6 +717,7 @@ def run_case(ctx, case, model=True):
         ref = np_contract(arrs, float(fac), x.nr_phys, periodic=per)
         ab = np_contract([np.abs(a) for a in arrs], float(fac), x.nr_phys, periodic=per)
         objs.append(x); refs.append(ref); absr.append(ab); nrp.append(x.nr_phys); exact.append(True); isp.append(per)
+        dexp.append(_l2(leaf["factor"][1]))
         ctx.count(f"leaf:{leaf['kind']}")
         ctx.count("leaf:data:" + ("complex" if leaf["cplx"] else "real"))
         ctx.count("leaf:factor:" + ("unit" if leaf["factor"] == [1, 1] else "non-unit"))
@@ -715,6 +740,7 @@ def run_case(ctx, case, model=True):
         ab = ref_step(st, absr, nrp, absolute=True)
         ex = all(exact[i] for i in st.get("a", [])) and step_exact(st)
         objs.append(x); refs.append(ref); absr.append(ab); nrp.append(nr); exact.append(ex); isp.append(False)
+        dexp.append(step_dexp(st, dexp))
         ctx.count(f"step:{st['f']}")
         if st["f"] == "add":
             ctx.count(f"add:terms:{len(st['a'])}")
@@ -725,7 +751,7 @@ def run_case(ctx, case, model=True):
     ctx.count(f"universe:{case['uni']['ops']}:{case['uni']['sym']}")
 
     # ---- oracle 1: dense object of every node ---------------------------------------------------------
-    reals = []
+    reals, isexs = [], []
     for idx, x in enumerate(objs):
         what = "leaf" if idx < nleaves else case["steps"][idx - nleaves]["f"]
         try:
@@ -736,11 +762,12 @@ def run_case(ctx, case, model=True):
                 real = dense_of(U, x)
         except Exception as e:
             fail(f"c06:dense:exception:{what}", f"to_tensor of node {idx} ({what}) raised {type(e).__name__}: {e}", {"node": idx})
-            reals.append(None)
+            reals.append(None); isexs.append(False)
             continue
         reals.append(real)
         scale = float(np.max(absr[idx])) if absr[idx].size else 0.0
-        isex = exact[idx] and scale < EXACT_LIMIT
+        isex = exact[idx] and scale * 2.0 ** dexp[idx] < EXACT_LIMIT
+        isexs.append(isex)
         err = float(np.max(np.abs(real - refs[idx]))) if real.shape == refs[idx].shape else float("inf")
         ctx.count("dense:" + ("exact" if isex else "tolerance"))
         if scale > 0 and not isex and err < float("inf"):
@@ -811,7 +838,7 @@ def run_case(ctx, case, model=True):
                     env.setup_(to='first'); env.setup_(to='last')
                     vals += [env.measure(bd=(n, n + 1)) for n in range(-1, N)]
                     vals.append(mps.vdot(objs[b], objs[k]))
-                ex = exact[b] and exact[k] and scale < EXACT_LIMIT and _dyadic_factor(objs[b]) and _dyadic_factor(objs[k])
+                ex = exact[b] and exact[k] and scale * 2.0 ** (dexp[b] + dexp[k]) < EXACT_LIMIT and _dyadic_factor(objs[b]) and _dyadic_factor(objs[k])
                 ctx.count("obs:overlap" + (":all-bonds" if ob.get("bonds") else "") + (":mpo-states" if nrp[b] == 2 else ""))
             elif o == "mpo":
                 b, k, ol = ob["bra"], ob["ket"], ob["ops"]
@@ -824,7 +851,8 @@ def run_case(ctx, case, model=True):
                     env.setup_(to='first'); env.setup_(to='last')
                     vals += [env.measure(bd=(n, n + 1)) for n in range(-1, N)]
                     vals.append(mps.vdot(objs[b], oparg, objs[k]))
-                ex = all(exact[i] for i in [b, k] + ol) and scale < EXACT_LIMIT and all(_dyadic_factor(objs[i]) for i in [b, k] + ol)
+                ex = all(exact[i] for i in [b, k] + ol) and scale * 2.0 ** (dexp[b] + dexp[k] + max(dexp[p] for p in ol)) < EXACT_LIMIT \
+                    and all(_dyadic_factor(objs[i]) for i in [b, k] + ol)
                 ctx.count("obs:measure_mpo" + (":sum" if len(ol) > 1 else "") + (":pbc" if any(isp[p] for p in ol) else "")
                           + (":all-bonds" if ob.get("bonds") else "") + (":mpo-states" if nrp[b] == 2 else ""))
             elif o == "from_tensor":
@@ -894,7 +922,7 @@ def run_case(ctx, case, model=True):
     ctx.case({"uni": case["uni"], "leaves": case["leaves"], "steps": case["steps"], "obs": case["obs"]}, nontrivial=nontrivial)
     maxD = [max(max(x[n].get_shape(axes=(0, 2))) for n in range(N)) for x in objs]
     return {"U": U, "leaf_arrays": leaf_arrays, "maxD": maxD, "reals": reals, "refs": refs, "absr": absr, "exact": exact, "nrp": nrp,
-            "numbers": numbers, "isp": isp, "nleaves": nleaves}
+            "numbers": numbers, "isp": isp, "nleaves": nleaves, "isex": isexs}
 
 
 def _dyadic_factor(x):
@@ -971,7 +999,7 @@ def compare_model(ctx, case, res, ans):
             ctx.fail("correspondence", "c06:model:shape", f"[{tag}] node {i}: model vector has {len(vals)} entries, real {flat.size}", case=case)
             continue
         scale = float(np.max(res["absr"][i])) if res["absr"][i].size else 0.0
-        isex = res["exact"][i] and scale < EXACT_LIMIT
+        isex = res["isex"][i]
         den = ent["den"]
         if isex:
             ok = all(Fraction(v[0], den) == Fraction(float(np.real(z))) and Fraction(v[1], den) == Fraction(float(np.imag(z)))
@@ -1035,6 +1063,13 @@ def fixed_cases():
             {"f": "add", "a": [6, 5], "amps": [[1, 0, 1], [1, 0, 1]]},                        # 15: zero-factor operand in a sum
             {"f": "neg", "a": [15]},                                                          # 16
             {"f": "add", "a": [1], "amps": [[0, 1, 1]]},                                      # 17: single-term add
+            # products combined afterwards with ordinary objects and with products of another depth (for N = 1 the first site
+            # of a product is also its last site)
+            {"f": "sub", "a": [8, 5]},                                                        # 18: (a+b)@c - c
+            {"f": "add", "a": [2, 9, 3], "amps": [[1, 0, 1], [-2, 0, 1], [0, 1, 1]]},         # 19: G - 2 G@H + i H
+            {"f": "matmul", "a": [9, 5], "opr": True},                                        # 20: (G@H)@c
+            {"f": "plus", "a": [20, 8]},                                                      # 21: (G@H)@c + (a+b)@c
+            {"f": "add", "a": [4, 21, 5], "amps": [[1, 0, 2], [1, 0, 1], [-1, 0, 1]]},        # 22
         ]
         obs = [
             {"o": "overlap", "bra": 5, "ket": 4, "bonds": True},
@@ -1048,8 +1083,88 @@ def fixed_cases():
             {"o": "zipper", "a": 2, "b": 3},
             {"o": "compress", "a": 7, "b": 5, "method": "1site", "start": "zipper"},
             {"o": "compress", "a": 2, "b": 3, "method": "2site", "start": "zipper"},
+            {"o": "mpo", "bra": 5, "ops": [2], "ket": 8, "bonds": True, "aslist": False},     # <c| G |(a+b)@c>
+            {"o": "mpo", "bra": 8, "ops": [3], "ket": 4, "bonds": True, "aslist": False},     # <(a+b)@c| H |x>
+            {"o": "mpo", "bra": 22, "ops": [9, 2, 19], "ket": 18, "bonds": False, "aslist": True},
+            {"o": "overlap", "bra": 21, "ket": 5, "bonds": True},
+            {"o": "overlap", "bra": 19, "ket": 9, "bonds": False},
         ]
         out.append({"kind": "prog", "uni": uni, "flavour": "fixed", "leaves": leaves, "steps": steps, "obs": obs})
+    return out
+
+
+def fixed_sector_cases():
+    """charged product operators O (local charges map the configuration ts onto ts2) between states of the two sectors, their
+    conj / T / H / reversed versions, sums (D = 2) and products with a neutral MPO, measured in three-layer environments"""
+    out = []
+    for (cls, sym, kw, N) in [("Spin12", "U1", {}, 1), ("Spin12", "U1", {}, 3), ("Spin1", "Z3", {}, 2), ("SpinlessFermions", "U1", {}, 3),
+                               ("SpinfulFermions", "U1xU1", {}, 2), ("SpinfulFermions", "U1xU1xZ2", {}, 1), ("SpinlessFermions", "Z2", {}, 2)]:
+        uni = {"ops": cls, "sym": sym, "kw": kw, "N": N}
+        U = Universe(uni)
+        ch = U.charges()
+        ts = [list(ch[i % len(ch)]) for i in range(N)]
+        ts2 = [list(ch[(i + 1) % len(ch)]) for i in range(N)]
+        qs = [[int(v) for v in U.cfg.sym.add_charges(tuple(b), tuple(a), signatures=(1, -1), new_signature=1)] for a, b in zip(ts, ts2)]
+        n1, n2 = list(total_charge(U, ts)), list(total_charge(U, ts2))
+        leaves = [
+            {"kind": "random_mps", "seed": 21, "cplx": False, "factor": [2, 1], "n": n1, "D": 3, "sigma": 1},      # 0: psi  (sector n1)
+            {"kind": "random_mps", "seed": 22, "cplx": True, "factor": [1, 2], "n": n2, "D": 2, "sigma": 1},       # 1: phi  (sector n2)
+            {"kind": "product_mps", "seed": 23, "cplx": True, "factor": [1, 1], "ts": ts},                         # 2
+            {"kind": "product_mps", "seed": 24, "cplx": False, "factor": [3, 1], "ts": ts2},                       # 3
+            {"kind": "product_mpo", "seed": 25, "cplx": True, "factor": [3, 1], "qs": qs},                         # 4: O    (n1 -> n2)
+            {"kind": "product_mpo", "seed": 26, "cplx": False, "factor": [1, 2], "qs": qs[1:] + qs[:1]},           # 5: O2   (same total charge)
+            {"kind": "random_mpo", "seed": 27, "cplx": False, "factor": [1, 1], "D": 2, "sigma": 1},               # 6: neutral
+        ]
+        for i in (0, 1):   # a sector that random_mps cannot populate with this seed: product state instead
+            try:
+                build_leaf(U, leaves[i])
+            except Exception:
+                leaves[i] = dict(leaves[2 + i], seed=21 + i)
+        steps = [
+            {"f": "H", "a": [4], "prop": True},                                               # 7: O.H   (n2 -> n1)
+            {"f": "conj", "a": [4]},                                                          # 8: O.conj()
+            {"f": "T", "a": [4], "prop": True},                                               # 9: O.T
+            {"f": "rev", "a": [4]},                                                           # 10: charge on the last virtual leg
+            {"f": "add", "a": [4, 5], "amps": [[3, 4, 1], [-2, 0, 1]]},                       # 11: charged, D = 2
+            {"f": "H", "a": [11], "prop": False},                                             # 12
+            {"f": "conj", "a": [0]},                                                          # 13
+            {"f": "conj", "a": [1]},                                                          # 14
+            {"f": "matmul", "a": [4, 0], "opr": True},                                        # 15: O@psi      (sector n2)
+            {"f": "matmul", "a": [7, 1], "opr": True},                                        # 16: O.H@phi    (sector n1)
+            {"f": "matmul", "a": [6, 4], "opr": False},                                       # 17: H@O charged, D = 2
+            {"f": "conj", "a": [17]},                                                         # 18
+            {"f": "rev", "a": [0]},                                                           # 19
+            {"f": "rev", "a": [1]},                                                           # 20
+            {"f": "add", "a": [15, 1, 3], "amps": [[1, 0, 1], [0, -1, 1], [1, 0, 2]]},        # 21: O@psi - i phi + phi_p/2
+            {"f": "H", "a": [17], "prop": True},                                              # 22
+            {"f": "conj", "a": [10]},                                                         # 23: conjugated, charge on the last leg
+            {"f": "conj", "a": [19]},                                                         # 24
+            {"f": "conj", "a": [20]},                                                         # 25
+        ]
+        obs = [
+            {"o": "mpo", "bra": 1, "ops": [4], "ket": 0, "bonds": True, "aslist": False},     # <phi| O |psi>
+            {"o": "mpo", "bra": 0, "ops": [7], "ket": 1, "bonds": True, "aslist": False},     # <psi| O.H |phi>
+            {"o": "mpo", "bra": 14, "ops": [8], "ket": 13, "bonds": True, "aslist": False},   # <phi*| O* |psi*>
+            {"o": "mpo", "bra": 13, "ops": [9], "ket": 14, "bonds": True, "aslist": False},   # <psi*| O.T |phi*>
+            {"o": "mpo", "bra": 20, "ops": [10], "ket": 19, "bonds": True, "aslist": False},  # reversed
+            {"o": "mpo", "bra": 25, "ops": [23], "ket": 24, "bonds": True, "aslist": False},  # reversed and conjugated
+            {"o": "mpo", "bra": 3, "ops": [11], "ket": 2, "bonds": True, "aslist": False},
+            {"o": "mpo", "bra": 2, "ops": [12], "ket": 21, "bonds": True, "aslist": False},
+            {"o": "mpo", "bra": 0, "ops": [7, 12], "ket": 1, "bonds": True, "aslist": True},  # sum of conjugate-transposed charged MPOs
+            {"o": "mpo", "bra": 21, "ops": [4, 11, 5], "ket": 16, "bonds": False, "aslist": True},
+            {"o": "mpo", "bra": 1, "ops": [17], "ket": 0, "bonds": True, "aslist": False},
+            {"o": "mpo", "bra": 14, "ops": [18], "ket": 13, "bonds": False, "aslist": True},
+            {"o": "mpo", "bra": 16, "ops": [22], "ket": 21, "bonds": True, "aslist": False},
+            {"o": "overlap", "bra": 1, "ket": 15, "bonds": True},
+            {"o": "overlap", "bra": 16, "ket": 0, "bonds": True},
+            {"o": "zipper", "a": 7, "b": 1},
+            {"o": "zipper", "a": 11, "b": 0},
+            {"o": "compress", "a": 7, "b": 1, "method": "1site", "start": "zipper"},
+            {"o": "compress", "a": 12, "b": 21, "method": "2site" if N > 1 else "1site", "start": "perturbed"},
+            {"o": "from_tensor", "x": 12, "canonize": "last"},
+            {"o": "from_tensor", "x": 16, "canonize": "first"},
+        ]
+        out.append({"kind": "prog", "uni": uni, "flavour": "fixed-sectors", "leaves": leaves, "steps": steps, "obs": obs})
     return out
 
 
@@ -1186,7 +1301,7 @@ def run(ctx):
     ncases = 150 if ctx.quick else 2500
     malformed(ctx)
     edge_probes(ctx)
-    fixed = fixed_cases()
+    fixed = fixed_cases() + fixed_sector_cases()
     process(ctx, fixed, cap)
     cases = []
     done = 0
